@@ -323,7 +323,9 @@ impl Shared {
                 if self.oracle.half_written(c) {
                     self.oracle.reach(19);
                 }
-                self.close_conn(c);
+                if !self.cfg.io.err_keeps_open {
+                    self.close_conn(c);
+                }
                 Poll::Ready(Err(self.fault_kind()))
             }
             A::Zero => {
@@ -379,7 +381,9 @@ impl Shared {
             }
             _ => {
                 self.log(|| format!("  io c{} flush error", c));
-                self.close_conn(c);
+                if !self.cfg.io.err_keeps_open {
+                    self.close_conn(c);
+                }
                 Poll::Ready(Err(self.fault_kind()))
             }
         }
@@ -469,7 +473,9 @@ impl Shared {
             }
             A::Err => {
                 self.log(|| format!("  io c{} read error", c));
-                self.close_conn(c);
+                if !self.cfg.io.err_keeps_open {
+                    self.close_conn(c);
+                }
                 Poll::Ready(Err(self.fault_kind()))
             }
             A::Eof => {
@@ -622,7 +628,15 @@ impl Shared {
                 self.conns[c].eof_pending = true;
             }
             V::ZeroReceiveMax | V::ZeroReceiveMaxFresh => {
-                let props = broker::connack_props(Some(0), None, None, None, None);
+                // the illegal value comes last: whatever the properties in front of it say must not outlive
+                // the refused handshake
+                let mut props = vec![
+                    mr::Prop { id: 0x12, val: mr::PVal::Str(b"intruder".to_vec()) },
+                    mr::Prop { id: 0x13, val: mr::PVal::U16(7) },
+                    mr::Prop { id: 0x27, val: mr::PVal::U32(9) },
+                    mr::Prop { id: 0x24, val: mr::PVal::Byte(0) },
+                ];
+                props.extend(broker::connack_props(Some(0), None, None, None, None));
                 let resume = can_resume && opts[i].0 == V::ZeroReceiveMax;
                 let pkt = self.broker.connack(e, resume, props);
                 self.broker.handshake_failed();
@@ -1703,6 +1717,10 @@ impl<'v> World<'v> {
             sh.pend_write_info = None;
             sh.pend_at_write = self.cur_pend_at.take();
             sh.force_cancel = false;
+            if self.script.is_none() && self.cfg.disconnect_dropped_unwritten && op == OpK::Disconnect {
+                // the transport never takes the first byte of the DISCONNECT and the application gives up
+                sh.pend_at_write = Some(0);
+            }
         }
         let progress0 = self.sh.borrow().progress;
         let res = match op {
